@@ -77,7 +77,7 @@ def check_utmp(case, got, exp):
                 bad.append("host %r, specification: localhost" % g["host"][:20])
         elif len(g["host"]) != e["hostlen"]:
             bad.append("host is %d characters long, specification: %d (field width 256)" % (len(g["host"]), e["hostlen"]))
-        if g["pid"] < 4000 or g["started"] < 1.7e9:
+        if g["pid"] < 4000 or g["started"] != 1700000000 + (g["pid"] - 4000):
             bad.append("pid/started %r %r" % (g["pid"], g["started"]))
     return bad
 
@@ -188,6 +188,10 @@ def live_netns(ctx, env):
         got4 = [a[1] for a in rows if a[0] == 2]
         if sorted(got4) != sorted(kv["v4"]):
             ctx.disagree("netns:ipv4", "%s: psutil IPv4 %r, SIOCGIFADDR %r" % (n, got4, kv["v4"]), d)
+    if d.get("again") != d["stats"] or d.get("failed_lookups") or d.get("fds_ok") != [True] * 4:
+        ctx.disagree("netns:after-failed-lookup", "after lookups of interfaces that do not exist: net_if_stats() %r (before: %r); "
+                     "unexpected results %r; the program's own descriptors %r"
+                     % (d.get("again"), d["stats"], d.get("failed_lookups"), d.get("fds_ok")), d)
     if not any(len(n) == 15 for n in d["made"]):
         core.vacuity("netns stage built no 15-character interface")
     ctx.cov.setdefault("replay", {})["net_if-netns"] = {"interfaces": sorted(k), "ipv6": sum(len(v["v6"]) for v in k.values())}
